@@ -13,14 +13,23 @@ env = f'CARGO_TARGET_DIR={wt}/target CARGO_NET_OFFLINE=true'
 assert os.path.exists(f'{md}/patch.diff'), 'no patch'
 sh(f'git -C {wt} checkout -- . ; rm -f {wt}/tests/demo.rs')
 shutil.copy(f'{md}/demo.rs', f'{wt}/tests/demo.rs')
-r = sh(f'cd {wt} && {env} cargo test --offline --test demo 2>&1 | grep -E "^test result"')
-clean_demo = ' 0 failed' in r.stdout and 'ok' in r.stdout
+pre = {}
+if os.environ.get('SEED_TRUST_TRIAGE') and os.path.exists('/tmp/triage.jsonl'):
+    for l in open('/tmp/triage.jsonl'):
+        d = json.loads(l)
+        if d.get('seed') == f'{pid}-{k}' and 'demo_clean_ok' in d: pre = d
+r = sh(f'cd {wt} && {env} cargo test --offline --test demo 2>&1') if not pre else None
+clean_demo = pre.get('demo_clean_ok') if pre else (r.returncode == 0 and 'test result: ok' in r.stdout)
 a = sh(f'git -C {wt} apply {md}/patch.diff')
 assert a.returncode == 0, a.stderr
-r = sh(f'cd {wt} && {env} cargo test --offline --lib --test integration_test 2>&1 | grep -E "^test result|error"')
-suite = r.stdout.count('test result: ok') >= 2 and 'FAILED' not in r.stdout and 'error' not in r.stdout
-r = sh(f'cd {wt} && {env} cargo test --offline --test demo 2>&1 | grep -E "^test result"')
-mut_demo_fails = 'FAILED' in r.stdout
+if pre:
+    suite, mut_demo_fails = pre.get('suite_ok'), pre.get('demo_fails')
+else:
+    r = sh(f'cd {wt} && {env} cargo test --offline --lib --test integration_test 2>&1 | grep -E "^test result|error"')
+    suite = r.stdout.count('test result: ok') >= 2 and 'FAILED' not in r.stdout and 'error' not in r.stdout
+    # (a demonstration that kills the test process - stack exhaustion - fails, too)
+    r = sh(f'cd {wt} && {env} cargo test --offline --test demo 2>&1')
+    mut_demo_fails = r.returncode != 0 and ('FAILED' in r.stdout or 'overflowed its stack' in r.stdout or 'SIGABRT' in r.stdout or 'SIGSEGV' in r.stdout)
 sh(f'git -C {wt} checkout -- . ; rm -f {wt}/tests/demo.rs')
 print(f'{name}: demo passes on clean tree={clean_demo} existing suite passes with mutant={suite} demo fails with mutant={mut_demo_fails}', flush=True)
 results = {}
